@@ -547,6 +547,33 @@ func (c *Ctx) c03SideConditions() {
 					}
 				}
 				ok := n > 0 && !ssau.ReachFromEntry(in.Parent(), cut).Instr(in)
+				if !ok && n == 0 {
+					// the call sits in a small wrapper: then every call of the wrapper must be behind the classifier
+					wcs := c.staticCallers(in.Parent())
+					all := len(wcs) > 0
+					for wg, wcalls := range wcs {
+						for _, wcall := range wcalls {
+							win := wcall.(ssa.Instruction)
+							wcut := ssau.NewCut()
+							wn := 0
+							for _, i := range ssau.Ifs(wg) {
+								x, neg := ssau.StripNot(i.Cond)
+								if cl, ok := x.(*ssa.Call); ok && cl.Call.StaticCallee() == cls {
+									wn++
+									wcut.AddEdge(i.Block(), ssau.Arm(i, !neg))
+								}
+								if v, trueIsNil, ok := ssau.NilTest(i.Cond); ok && gst != nil && ssau.IsCallTo(ssau.Unwrap(v), func(cm *ssa.CallCommon) bool { return cm.StaticCallee() == gst }) {
+									wn++
+									wcut.AddEdge(i.Block(), ssau.Arm(i, trueIsNil))
+								}
+							}
+							if wn == 0 || ssau.ReachFromEntry(wg, wcut).Instr(win) {
+								all = false
+							}
+						}
+					}
+					ok = all
+				}
 				c.R.Check("T-side", key, ok, c.posOf(in), fmt.Sprintf("%s is reached only after %s(code)==true or GetScriptType(code) succeeded", pair[0], pair[1]))
 			}
 		}
